@@ -187,7 +187,6 @@ func CompareSSA(w *core.World, resolve func(name string) *ssa.Function) (*SSARep
 	return rep, nil
 }
 
-
 // globalKey: package-level tables correspond by what they are — the type of their elements — when that is unique
 // in their package (the one table of [2]uint64 rows, the one []float64, …), else by name. Their contents are
 // judged separately (R04a re-derives every row).
